@@ -10,7 +10,7 @@ Import ListNotations.
 Open Scope Z_scope.
 
 Ltac bridge := intros; cbv beta delta [gen_from_rows_transposes gen_from_rows_empty_rule gen_sort_key_rule gen_sort_stable
-  gen_dispatch gen_empty_dtype_rule gen_flat_check_raises gen_nested_converts_rows gen_add_name_raises
+  gen_dispatch gen_empty_dtype_rule gen_int_magnitude_rule m_int_magnitude_rule fix8_int_magnitude gen_flat_check_raises gen_nested_converts_rows gen_add_name_raises
   gen_same_type_check_skips_empty gen_add_type_rule gen_add_empty_typed_raises gen_dict_join gen_dict_split
   gen_sa_length gen_sa_pads_right gen_sa_width_from_encoded
   m_from_rows_transposes m_from_rows_empty_rule m_sort_key_rule m_sort_stable m_dispatch m_empty_dtype_rule
@@ -28,6 +28,9 @@ Proof. bridge. Qed.
 Lemma b_sort_stable : gen_sort_stable = m_sort_stable. Proof. bridge. Qed.
 Lemma b_dispatch : gen_dispatch = m_dispatch. Proof. bridge. Qed.
 Lemma b_empty_dtype_rule : forall a b c d, gen_empty_dtype_rule a b c d = m_empty_dtype_rule fix5_empty_dtype a b c d.
+Proof. bridge. Qed.
+Lemma b_int_magnitude_rule : forall a b c d e f g,
+  gen_int_magnitude_rule a b c d e f g = m_int_magnitude_rule fix8_int_magnitude a b c d e f g.
 Proof. bridge. Qed.
 Lemma b_flat_check_raises : forall a b c, gen_flat_check_raises a b c = m_flat_check_raises fix6_flat_cells a b c.
 Proof. bridge. Qed.
@@ -73,6 +76,35 @@ Lemma empty_dtype_follows_rule fx5 k :
   kind_test k = "numeric"%string ->
   num_dt fx5 k [] = dt_of_rule (m_empty_dtype_rule fx5 true true (kind_int_or_bool k) (kind_bool k)).
 Proof. destruct k, fx5; simpl; intros H; try discriminate; reflexivity. Qed.
+
+(* a non-empty python-int list that NumPy would hold as float64 / object (neither all within int64 nor all within
+   [2^63, 2^64)): the model's int_list_col does what the magnitude rule says *)
+Lemma forallb_andb {A} (f g : A -> bool) l : forallb (fun x => f x && g x) l = forallb f l && forallb g l.
+Proof.
+  induction l as [|x l IH]; [reflexivity|]. simpl. rewrite IH.
+  destruct (f x), (g x), (forallb f l), (forallb g l); reflexivity.
+Qed.
+Lemma forallb_impl {A} (f g : A -> bool) l : (forall x, f x = true -> g x = true) -> forallb f l = true -> forallb g l = true.
+Proof. intros H. rewrite !forallb_forall. intros Hf x Hx. apply H. apply Hf. exact Hx. Qed.
+Lemma int_list_follows_magnitude_rule k q qs :
+  is_int_kind k = true ->
+  let vs := map (fun z => z / 4) (q :: qs) in
+  forallb fits_i64 vs = false -> forallb (fun v => (2 ^ 63 <=? v) && (v <? 2 ^ 64)) vs = false ->
+  int_list_col true k (q :: qs)
+  = if m_int_magnitude_rule true true true true true true (forallb (fun v => 0 <=? v) vs) (forallb (fun v => v <? 2 ^ 64) vs) =? 1
+    then Some (ColNum DI (q :: qs)) else None.
+Proof.
+  intros Hk vs H1 H2. unfold int_list_col. fold vs. rewrite H1, H2.
+  assert (Hk' : match k with KInt | KOpt => true | _ => false end = true) by (destruct k; simpl in Hk; congruence).
+  rewrite Hk'.
+  assert (Eu : forallb fits_u64 vs = forallb (fun v => 0 <=? v) vs && forallb (fun v => v <? 2 ^ 64) vs)
+    by (apply (forallb_andb (fun v => 0 <=? v) (fun v => v <? 2 ^ 64))).
+  unfold m_int_magnitude_rule.
+  destruct (forallb (fun v => 0 <=? v) vs), (forallb (fun v => v <? 2 ^ 64) vs); rewrite Eu; cbn [andb negb Z.eqb];
+    try (destruct (forallb (fun v => fits_i64 v || fits_u64 v) vs); reflexivity).
+  rewrite (forallb_impl fits_u64 (fun v => fits_i64 v || fits_u64 v) vs); [reflexivity| |exact Eu].
+  intros x Hx. rewrite Hx. apply orb_true_r.
+Qed.
 
 Lemma flat_check_follows_rule fx5 fx6 ss :
   m_flat_check_raises fx6 true true (negb (forallb (fun s => Nat.eqb (length s) 1) ss)) = true ->
